@@ -36,9 +36,8 @@ def catchH (hs : List Exc) (r : PyM Val) : PyM Val :=
   | .ok v => .ok v
   | .error c => if hs.contains c || hs.contains .other then .ok .err else .error c
 
-/-- what Python iteration (`map(f, x)`, `for v in x`) yields: list elements, map keys.
-Strings/bytes iterate too (native `str`/`int` items) — outside the model: `.error .other`.
-Everything else is not `Iterable`: `TypeError`. -/
+/-- the driver's `Sem.iter`: list elements, map keys. Strings/bytes iterate too (native `str`/`int`
+items) — outside the driver's fragment: `.error .other`. Everything else is not `Iterable`: `TypeError`. -/
 def iterV : Val → PyM (List Val)
   | .list xs => .ok xs
   | .map ks _ => .ok ks
@@ -51,10 +50,14 @@ def firstErr : List Val → Bool
   | [] => false
   | v :: vs => v.isErr || firstErr vs
 
+/-- is this value the string `f`? -/
+def Val.isStrEq : Val → String → Bool
+  | .str s, f => s == f
+  | _, _ => false
+
 /-- association-list lookup of a Python `str` key in a `MapType` -/
 def mapGet : List Val → List Val → String → Option Val
-  | .str k :: ks, v :: vs, f => if k = f then some v else mapGet ks vs f
-  | _ :: ks, _ :: vs, f => mapGet ks vs f
+  | k :: ks, v :: vs, f => if k.isStrEq f then some v else mapGet ks vs f
   | _, _, _ => none
 
 /-! ### handler sets of the rules (bridged to `Cel.Gen.Eval` in `Cel.Bridge.Eval`) -/
@@ -192,7 +195,7 @@ def evalI (S : Sem) : Expr → Env → PyM Val
   | .macro k a x body, env => do
       let recv ← evalI S a env
       if recv.isErr then .ok .err
-      else match iterV recv with
+      else match S.iter recv with
         | .error .typeError => .ok .err          -- `not isinstance(member_list, Iterable)`
         | .error c => .error c
         | .ok elems =>
